@@ -24,17 +24,24 @@ package types
 //@   ensures result == nil ==> !self.dirty && self.dirLinked
 //@   ensures result != nil ==> self.dirty == old(self.dirty) && self.dirLinked == old(self.dirLinked)
 
+//@ -- io.ReaderAt over the ghost file contents self.data[0:self.size): a call
+//@ -- either fails with an I/O error, or returns exactly the available bytes
+//@ -- (io.EOF iff fewer than len(p) were available).
 //@ interface WritableFile.ReadAt
 //@   requires off >= 0
-//@   assigns mem(p)
+//@   assigns p[0:len(p)]
 //@   ensures 0 <= result0 && result0 <= len(p)
-//@   ensures result1 == nil ==> result0 == len(p)
+//@   ensures result1 == nil ==> result0 == len(p) && off + int64(result0) <= int64(self.size)
+//@   ensures result1 == io.EOF ==> result0 < len(p) && ((off >= int64(self.size) && result0 == 0) || (off < int64(self.size) && off + int64(result0) == int64(self.size)))
+//@   ensures (result1 == nil || result1 == io.EOF) ==> eqbytes(p, 0, self.data, int(off), result0)
 
 //@ interface ReadableFile.ReadAt
 //@   requires off >= 0
-//@   assigns mem(p)
+//@   assigns p[0:len(p)]
 //@   ensures 0 <= result0 && result0 <= len(p)
-//@   ensures result1 == nil ==> result0 == len(p)
+//@   ensures result1 == nil ==> result0 == len(p) && off + int64(result0) <= int64(self.size)
+//@   ensures result1 == io.EOF ==> result0 < len(p) && ((off >= int64(self.size) && result0 == 0) || (off < int64(self.size) && off + int64(result0) == int64(self.size)))
+//@   ensures (result1 == nil || result1 == io.EOF) ==> eqbytes(p, 0, self.data, int(off), result0)
 
 //@ interface WritableFile.Close
 //@   assigns self.closed
